@@ -31,6 +31,13 @@ def stress_jobs(rng, n):
         else:
             sym, c, p = rng.choice(gen.SAMPLES[4:])
             jobs.append(dict(sym=sym, content=onedim.U(c), p=list(p)))
+    # symbols filled to (within a character of) their capacity: the terminator / padding logic decides how many bytes the
+    # IterateBytes producer sends, splitToBlocks receives exactly the symbol's data bytes (Pipelines.tla: produced = consumed)
+    for _ in range(4):
+        v, level, md = rng.randint(1, 7), rng.randrange(4), rng.choice([1, 2, 1, 2, 4])
+        c = C01.cap(v, level, md) - rng.choice([0, 0, 1, 2])
+        f = C01.filler(rng, md, max(0, c), 1)
+        jobs.append(dict(sym="qr", content=list(f if isinstance(f, bytes) else f.encode()), p=[level, rng.choice([0, {1: 1, 2: 2, 4: 3}[md]])]))
     for k, j in enumerate(jobs):
         j["key"] = k + 1
     return jobs
@@ -94,6 +101,21 @@ def run(tier):
             traces.append((("stress g=%d GOMAXPROCS=%d" % (g, procs)), jobs, evs, g, procs))
             stuck = stuck or any(e["op"] == "deadlock" for e in evs)
             total += sum(1 for e in evs if e["op"] == "cencode")
+    # (a') pipeline sweep: every QR (version <= 10 / 40) x level x mode filled to capacity and to capacity - 1, sequentially in one process:
+    # the hook event qr.split must show produced = consumed for each, and nothing may be left running
+    sweep = []
+    for v in range(1, 11 if quick else 41):
+        for level in range(4):
+            for md in (1, 2, 4):
+                for d in (0, 1):
+                    f = C01.filler(rng, md, max(0, C01.cap(v, level, md) - d), 0)
+                    sweep.append(dict(sym="qr", content=list(f if isinstance(f, bytes) else f.encode()), p=[level, {1: 1, 2: 2, 4: 3}[md]], key=len(sweep) + 1))
+    evs, _ = run_stress(chk, binary, sweep, 1, 1, 1, 1, "sweep")
+    for e in evs:
+        e["hist"] = len(traces)
+    evs.insert(0, dict(op="config", g=1, gomaxprocs=1, hist=len(traces)))
+    traces.append(("pipeline sweep", sweep, evs, 1, 1))
+    total += sum(1 for e in evs if e["op"] == "cencode")
     # (b) schedules, spec -> code
     behs = behaviours(chk, 20 if quick else 400)
     sched_traces = []
